@@ -26,6 +26,7 @@ RULE = (
     "implicit array, READ across two DATA lines, RESTORE, empty DATA item, PRINT with >= 2 separator kinds, INPUT with prompt, string function of a string "
     "function}; distinct by sha1 of (AST, options)"
 )
+RULE += ' Also: open (unterminated) string literals as the last assignment of a line, letter+digit variable names, READ statements with 10-14 targets against DATA lines of up to 60 items, unquoted DATA items with apostrophes, exponent-range numerals, one case in three in a drawn layout. A refusal of a generated program counts as a violation.'
 ASSUMPTIONS = [
     "CB-6..CB-9 and B09-5..B09-8 of DESIGN.md section 3; number formatting abstract; strings longer than the requested storage on the CB side are the README's documented 'common issue' and are skipped",
     "READ targets are typed like the DATA item they receive",
